@@ -291,7 +291,7 @@ pub fn run_schedule(pool: &Pool, mk: &Mk, cx: &Conc, universe: &[Vec<String>], p
             if quiescent {
                 break;
             }
-            let (g, to) = coop.main_cv.wait_timeout(st, Duration::from_secs(10)).unwrap();
+            let (g, to) = coop.main_cv.wait_timeout(st, Duration::from_secs(3)).unwrap();
             st = g;
             if to.timed_out() {
                 let quiescent = st.running.is_none() && (0..n).all(|t| st.finished[t] || st.parked.contains_key(&t));
@@ -348,11 +348,16 @@ pub fn explore(mk: &Mk, cx: &Conc, universe: &[Vec<String>], progs: Vec<Vec<Call
             break;
         }
         let ex = run_schedule(&pool, mk, cx, universe, &progs, &prefix);
-        if ex.stuck {
-            // leak the blocked workers and continue with fresh ones
-            std::mem::forget(std::mem::replace(&mut pool, Pool::new(progs.len())));
-        }
         out.schedules += 1;
+        if ex.stuck {
+            // leak the blocked workers; one deadlocked schedule per program is enough evidence
+            std::mem::forget(std::mem::replace(&mut pool, Pool::new(progs.len())));
+            let key = format!("{:?}|{}|{}", ex.results, ex.fin, ex.stuck);
+            let sched: Vec<usize> = ex.trace.iter().map(|x| x.0).collect();
+            out.histories.entry(key).or_insert((ex.results.clone(), ex.fin.clone(), sched, true));
+            out.truncated = true;
+            break;
+        }
         out.max_yields = out.max_yields.max(ex.trace.len());
         let sched: Vec<usize> = ex.trace.iter().map(|x| x.0).collect();
         let key = format!("{:?}|{}|{}", ex.results, ex.fin, ex.stuck);
